@@ -50,9 +50,11 @@ def name_atom(term, hdr_size, full_size):
             return ('generation>0', True)
         if '.generation' in sa and 'load#' in sa and op == 'Eq' and cb == 0:
             return ('generation==0', False)
-        if 'segsize' in sa and op == 'Ge' and cb is not None:
+        derived = any(x[0] == 't' and x[1] in ('Add', 'Sub', 'Mul', 'Div', 'Rem', 'BitAnd', 'BitOr', 'BitXor', 'Shl', 'Shr', 'wadd', 'wsub', 'Not', 'Neg')
+                      for x in psi.walk(a))
+        if 'segsize' in sa and op == 'Ge' and cb is not None and not derived:
             return ('segsize>=%d' % cb, True)
-        if 'segsize' in sa and op == 'Lt' and cb is not None:
+        if 'segsize' in sa and op == 'Lt' and cb is not None and not derived:
             return ('segsize<%d' % cb, False)
         return None
     if op == 'call' and term[2][0].endswith('::eq') and '.magic' in ft:
